@@ -108,6 +108,15 @@ type HangAttributor interface {
 	HangNeedsLibraryFrame() bool
 }
 
+// SequentialLibrary is implemented by checks that run library code on one
+// goroutine only: there a goroutine parked in a sync.Mutex / sync.RWMutex
+// acquisition whose innermost frame outside the standard library is library
+// code waits for a lock that nobody who could release it holds - a lock leaked
+// on some exit path - and the run counts against the property as a deadlock.
+type SequentialLibrary interface {
+	LibraryRunsOnOneGoroutine() bool
+}
+
 // Hash64 hashes strings into a signature.
 func Hash64(parts ...string) uint64 {
 	h := fnv.New64a()
